@@ -2,10 +2,7 @@
 
 package main
 
-type refCase struct{}
 type fmtCase struct{}
 
-func unitC18(x *ctx)               {}
 func unitC16(x *ctx)               {}
-func c18One(x *ctx, c refCase) bool { return false }
 func c16One(x *ctx, c fmtCase) bool { return false }
